@@ -1,3 +1,4 @@
+\* generated by mkstorecfg.py - C04: reorg points x nested reorg x continuation
 CONSTANTS
   Kind = "bridge"
   Fixed = TRUE
